@@ -39,11 +39,13 @@ LEMMA SrvInv == ASSUME IndInv, NEW m, Srv(m) PROVE IndInv'
         BY <1>7
   <1>8. CASE act = "Active" /\ l = "FPOTHER" /\ UNCHANGED <<act, shareId>> /\ obs' = ObsNext(obs, l)
         BY <1>8
+  <1>8a. CASE act = "Active" /\ l = "SPBMP" /\ UNCHANGED <<act, shareId>> /\ obs' = ObsNext(obs, l)
+        BY <1>8a
   <1>9. CASE act # "Active" /\ l = "DEACT" /\ (UNCHANGED <<act, obs>> \/ (act' = "WaitDemandActive" /\ obs' = ObsInit))
         BY <1>9
   <1>10. CASE ~Expected(act, l) /\ l # "DEACT" /\ UNCHANGED <<act, shareId>> /\ obs' = ObsNext(obs, l)
         BY <1>10
-  <1> QED BY <1>1, <1>2, <1>3, <1>4, <1>5, <1>6, <1>7, <1>8, <1>9, <1>10 DEF Srv
+  <1> QED BY <1>1, <1>2, <1>3, <1>4, <1>5, <1>6, <1>7, <1>8, <1>8a, <1>9, <1>10 DEF Srv
 
 LEMMA TrainInv == ASSUME IndInv, NEW ms, SrvTrain(ms) PROVE IndInv'
   BY DEF SrvTrain, IndInv, States, Stages, StageOf, Quiet
@@ -87,7 +89,9 @@ LEMMA GatesSrv == ASSUME Gates, NEW m, Srv(m) PROVE Gates'
     <2>1. CASE cbs' = <<>> BY <2>1
     <2>2. CASE act = "Active" /\ l = "FPBMP" /\ UNCHANGED <<act, shareId>> /\ obs' = ObsNext(obs, l)
           BY <2>2
-    <2> QED BY <2>1, <2>2 DEF Srv
+    <2>3. CASE act = "Active" /\ l = "SPBMP" /\ UNCHANGED <<act, shareId>> /\ obs' = ObsNext(obs, l)
+          BY <2>3
+    <2> QED BY <2>1, <2>2, <2>3 DEF Srv
   <1> QED BY <1>1, <1>3, <1>4 DEF Gates
 
 LEMMA GatesStep == Gates /\ [Next]_vars => Gates'
@@ -95,7 +99,7 @@ LEMMA GatesStep == Gates /\ [Next]_vars => Gates'
   <1>0. IndInv' BY StepInv DEF Gates
   <1>1. CASE \E m \in ModelMsgs : Srv(m) BY <1>1, GatesSrv
   <1>1a. CASE \E ms \in ModelTrains : SrvTrain(ms)
-        BY <1>0, <1>1a DEF SrvTrain, Quiet, Gates, IndInv, BitmapsInWindow, InputGatedCore
+        BY <1>0, <1>1a DEF SrvTrain, Quiet, Gates, IndInv, States, Stages, StageOf, BitmapsInWindow, InputGatedCore
   <1>2. CASE \E e \in ModelInputs, len \in BOOLEAN : Input(e, len)
         BY <1>0, <1>2 DEF Input, Gates, IndInv, States, Stages, StageOf, BitmapsInWindow, InputGatedCore
   <1>3. CASE Shutdown BY <1>0, <1>3 DEF Shutdown, Gates, IndInv, BitmapsInWindow, InputGatedCore
